@@ -75,13 +75,28 @@ def gen_softmax(draw, levels=True):
         lv = [draw(st.sampled_from([0.0, 0.0, 200.0, -200.0, 1000.0, -1000.0])) for _ in range(min(n, 6))]
         v = [x + lv[i % len(lv)] for i, x in enumerate(v)]
     return {"xs": [X(shp, v)],
-            "args": {"dim": draw(st.integers(-nd, nd - 1)), "form": draw(st.sampled_from(["fn", "module"]))}}
+            "args": {"dim": draw(st.integers(-nd, nd - 1)), "form": draw(st.sampled_from(["fn", "module"])),
+                     # the module object was used before, on an input of another rank (a layer object is configuration,
+                     # not state: what it computed earlier must not matter)
+                     "reused": draw(st.booleans())}}
+
+
+def used_before(module, shape, dtype):
+    """call `module` once on an all-zero input with one more leading dimension; whatever happens there is not judged"""
+    try:
+        module(sg.Tensor(np.zeros([2] + list(shape), dtype=dtype)))
+    except Exception:  # noqa: BLE001
+        pass
+    return module
 
 
 def _apply_softmax(name):
     def ap(ts, args):
         if args["form"] == "module":
-            return (nn.Softmax if name == "softmax" else nn.LogSoftmax)(args["dim"])(ts[0])
+            m = (nn.Softmax if name == "softmax" else nn.LogSoftmax)(args["dim"])
+            if args.get("reused"):
+                used_before(m, ts[0].shape, ts[0].dtype)
+            return m(ts[0])
         return getattr(F, name)(ts[0], args["dim"])
     return ap
 
@@ -619,11 +634,14 @@ def gen_flatten_layer(draw):
         nd = len(shp)
         s = draw(st.integers(0, nd - 1)); e = draw(st.integers(s, nd - 1))
         args = {"start": s, "end": e if draw(st.booleans()) else e - nd}
+    args["reused"] = draw(st.booleans())
     return {"xs": [X(shp, draw(gen.grid(shp)))], "args": args}
 
 
 def apply_flatten_layer(ts, args):
     m = nn.Flatten(args["start"], args["end"]) if "start" in args else nn.Flatten()
+    if args.get("reused"):
+        used_before(m, ts[0].shape, ts[0].dtype)
     return m(ts[0])
 
 
